@@ -414,6 +414,7 @@ class HarnessResult:
         self.reached = set()
         self.vcs = 0
         self.samples = []
+        self.witnesses = []
 
 
 class Explorer:
@@ -426,6 +427,7 @@ class Explorer:
         self.max_decisions = max_decisions
         self.summary_stack = []
         self.use_fallback = True
+        self.collect_witnesses = 0
 
     def push_alt(self, prefix):
         self.work.append(prefix)
@@ -519,6 +521,16 @@ class Explorer:
                 res.error = ("crash", "%s: %s\n%s" % (type(e).__name__, e, traceback.format_exc()))
             if completed:
                 res.completed_paths += 1
+                if self.collect_witnesses and len(res.witnesses) < self.collect_witnesses:
+                    # a concrete input that follows exactly this path: replayed natively by the self-test
+                    try:
+                        if ctx.solver.check() == z3.sat:
+                            m = ctx.small_model(ctx.solver, ctx.solver.model())
+                            res.witnesses.append({"model": ctx.extract_model(m),
+                                                  "ensures": [o.name for o in ctx.obligations
+                                                              if not o.name.startswith(("inv-init:", "inv-step:", "pre@", "side:", "no-exception"))]})
+                    except Exception:
+                        pass
                 # implicit obligation on every completed path: nothing escaped
                 ob = Obligation("no-exception")
                 ob.status = "proved"
